@@ -27,7 +27,7 @@ func replay(raw json.RawMessage) (string, bool) {
 	if c.World == nil || c.Selection == nil || c.Phase == "remote" || c.Phase == "dup" {
 		return "case of phase " + c.Phase + " is not replayable without the enumerator", false
 	}
-	w := &World{ModDirs: c.World.ModDirs, ModNames: c.World.ModNames}
+	w := &World{ModDirs: c.World.ModDirs, ModNames: c.World.ModNames, EmptyMods: c.World.EmptyMods, NonProto: c.World.NonProto}
 	for _, f := range c.World.Files {
 		w.Files = append(w.Files, File{Path: f.Path, Module: f.Module, Ext: f.Ext, Text: c.Files[f.Ext]})
 	}
@@ -85,7 +85,7 @@ func replay(raw json.RawMessage) (string, bool) {
 	}
 
 	// CLI
-	if c.Phase == "cli" || c.Phase == "errors" || c.Phase == "options" || (c.Phase == "protofile" && c.Format != "") {
+	if c.Phase == "cli" || c.Phase == "errors" || c.Phase == "options" || ((c.Phase == "protofile" || c.Phase == "bystander") && c.Format != "") {
 		scratch, serr := os.MkdirTemp("", "verif-c01-")
 		if serr == nil {
 			defer os.RemoveAll(scratch)
@@ -95,10 +95,14 @@ func replay(raw json.RawMessage) (string, bool) {
 				if format == "" {
 					format = "binpb"
 				}
-				point := cliPoint(format)
-				args := cliArgs(dir, sel, format)
-				res := bufx.RunCLI(ctx, nil, "", args...)
-				lines = append(lines, fmt.Sprintf("cli: exit=%d stdout=%d bytes stderr=%q", res.ExitCode, len(res.Stdout), strings.ReplaceAll(res.Stderr, scratch, "<scratch>")))
+				var cfg cliConfig
+				if c.Config != nil {
+					cfg = *c.Config
+				}
+				point := cfg.point(format)
+				args := append(cliArgs(dir, sel, format), cfg.args()...)
+				res := bufx.RunCLI(ctx, cfg.env(), "", args...)
+				lines = append(lines, fmt.Sprintf("cli (%s): exit=%d stdout=%d bytes stderr=%q", cfg, res.ExitCode, len(res.Stdout), strings.ReplaceAll(res.Stderr, scratch, "<scratch>")))
 				switch {
 				case len(targets) == 0:
 					if res.ExitCode == 0 {
@@ -126,16 +130,17 @@ func replay(raw json.RawMessage) (string, bool) {
 					}
 				default:
 					if want, ok := expectedPositions(w, direct, filepath.ToSlash(dir)); ok {
-						got, other := cliAnnotations(res.Stderr)
+						got, other := parseDiagnostics(cfg.ErrFormat, res.Stderr)
+						pre := cfg.point("binpb") + "/" + cfg.errClause()
 						switch {
 						case res.ExitCode == 0:
-							vs = append(vs, violation{"cli/error/exit-0-despite-compile-error", "exit 0"})
+							vs = append(vs, violation{pre + "/exit-0-despite-compile-error", "exit 0"})
 						case len(res.Stdout) != 0:
-							vs = append(vs, violation{"cli/error/output-despite-compile-error", "image bytes on stdout"})
+							vs = append(vs, violation{pre + "/output-despite-compile-error", "image bytes on stdout"})
 						case res.ExitCode != 100 || len(other) > 0:
-							vs = append(vs, violation{"cli/error/not-annotations", res.Stderr})
+							vs = append(vs, violation{pre + "/not-annotations", res.Stderr})
 						case !samePositions(got, want):
-							vs = append(vs, violation{"cli/error/abs/" + classifyPosDiff(got, want), fmt.Sprintf("printed %v, expected %v", sortedPos(got), sortedPos(want))})
+							vs = append(vs, violation{pre + "/abs/" + classifyPosDiff(got, want), fmt.Sprintf("printed %v, expected %v", sortedPos(got), sortedPos(want))})
 						}
 					}
 				}
